@@ -973,6 +973,12 @@ def cached_script_view(
     if req.method != "GET":
         return HttpResponseNotAllowed(["GET"])
 
+    # NOTE: `script_type` comes from the URL and may be any text without "/". Refuse unknown kinds
+    # before building a cache key from them - e.g. "js:0ab2c3" would address the entry of the JS variables
+    # and then fail in `_get_content_types()` with a server error.
+    if script_type not in _CONTENT_TYPES:
+        return HttpResponseNotFound()
+
     comp_cls = comp_hash_mapping.get(comp_cls_hash)
     if comp_cls is None:
         return HttpResponseNotFound()
